@@ -2,19 +2,65 @@
 From Coq Require Import ZArith QArith List String Bool Arith.
 Import ListNotations.
 From Coq Require Import Qcanon.
-From HolpyV Require Import ProdSimp ProdSimpSound TruthTable Alethe AletheSound LaGeneric LaGenericSound.
+From HolpyV Require Import ProdSimp ProdSimpSound TruthTable Alethe AletheSound Alethe2 Alethe2Sound AletheRes AletheResSound LaGeneric LaGenericSound.
 
 (* Whenever the model of a veriT rule evaluation (13 propositional rules:
    not_or not_and not_not implies and_pos or_pos not_equiv1/2 equiv1/2 and or
    false, as repaired) accepts a clause for given arguments and premises, the
-   clause holds in every valuation in which the premises hold.  PARTIAL w.r.t.
-   C18: the other rules are validated per accepted instance by entails_tt
-   (propositional rules) or not covered (equality, arithmetic, quantifiers). *)
+   clause holds in every valuation in which the premises hold.  C18_accept_all_sound
+   below extends this to 37 clause rules and C18_th_resolution_sound to resolution.
+   PARTIAL w.r.t. C18: the simplification rules are validated per accepted instance
+   (entails_tt / Z3), la_generic and prod_simplify have their own theorems below,
+   the equality, quantifier and skolemisation rules are judged by Z3 per instance. *)
 Theorem C18_accept_sound : forall rule args prems c,
   accept rule args prems = Some c ->
   forall v, (forall p, In p prems -> pholds v p = true) -> pholds v c = true.
 Proof. exact accept_sound. Qed.
 Print Assumptions C18_accept_sound.
+
+(* The 24 further clause rules of Alethe2.v (or_neg, and_neg, equiv_pos1/2, equiv_neg1/2,
+   implies_pos, implies_neg1/2, not_implies1/2, ite1/2, ite_pos1/2, ite_neg1/2, not_ite1/2,
+   xor_pos1/2, xor_neg1/2, contraction) together with the 13 above: whenever the model of
+   macro.eval accepts a clause, it holds in every valuation in which the premises hold. *)
+Theorem C18_accept_all_sound : forall rule args prems c,
+  accept_all rule args prems = Some c ->
+  forall v, (forall p, In p prems -> pholds v p = true) -> pholds v c = true.
+Proof. exact accept_all_sound. Qed.
+Print Assumptions C18_accept_all_sound.
+
+(* th_resolution (ThResolutionMacro.eval with resolve_order / try_resolve): the premises are
+   cut into clauses of the stated sizes, duplicate literals removed, and clauses resolved
+   pairwise on complementary literals in the order the code chooses; whatever clause is left
+   (also when the search gets stuck and the code gives up) must be contained in the stated
+   clause.  Whenever the model accepts, the stated clause holds in every valuation in which
+   all premises hold -- for any number of premises, any clause sizes, any literals. *)
+Theorem C18_th_resolution_sound : forall cl sizes prems c,
+  accept_res cl sizes prems = Some c ->
+  forall v, (forall p, In p prems -> pholds v p = true) -> pholds v c = true.
+Proof. exact accept_res_sound. Qed.
+Print Assumptions C18_th_resolution_sound.
+
+(* the model's loop never stops for lack of fuel: with as many rounds as remaining clauses it
+   behaves as with one more (it stops because one clause is left or no pair resolves) *)
+Theorem C18_th_resolution_fuel : forall f props remain, (List.length remain <= f)%nat ->
+  res_loop f props remain = res_loop (S f) props remain.
+Proof. exact res_loop_fuel. Qed.
+Print Assumptions C18_th_resolution_fuel.
+
+(* history: before the "fix: equiv_pos1 and equiv_pos2 require ..." commit the rule read the
+   operands of whatever sat under the first literal's negation: ~(a | b) | a | ~b accepted *)
+Theorem C18_equiv_pos1_historical_refuted :
+  exists args c v, acc_equiv_pos1_historical args [] = Some c /\ pholds v c = false /\ acc_equiv_pos1 args [] = None.
+Proof. exact equiv_pos1_historical_refuted. Qed.
+Print Assumptions C18_equiv_pos1_historical_refuted.
+
+(* non-vacuity: p, ~p resolve to the empty clause; a three-clause chain is accepted with the
+   right conclusion and refused with a wrong one *)
+Example C18_th_resolution_example :
+  accept_res [] [1; 1]%nat [PAtom 0; PNot (PAtom 0)] = Some PFalse
+  /\ accept_res [PAtom 2] [2; 2; 1]%nat [POr (PAtom 0) (PAtom 1); POr (PNot (PAtom 0)) (PAtom 2); PNot (PAtom 1)] = Some (PAtom 2)
+  /\ accept_res [PAtom 1] [2; 2; 1]%nat [POr (PAtom 0) (PAtom 1); POr (PNot (PAtom 0)) (PAtom 2); PNot (PAtom 1)] = None.
+Proof. repeat split; vm_compute; reflexivity. Qed.
 
 (* The validity oracle used for every accepted step of every exercised rule. *)
 Theorem C18_entails_tt_spec : forall G c,
